@@ -40,10 +40,19 @@ def fam_ns(prop, kset, n_prog, n_ops, names=None, salt=0, **kw):
         cfg = gen.K(kname)
         for i in range(n_prog):
             progs.append(gen.ns_program(rng, "ns-%s-%d" % (kname, i), cfg, n_ops, names, **kw))
-    return progs
+    return via_entries(progs, rng)
 
 
 CS = {"K1": 512, "K1b": 512, "K2": 1024, "K3": 512, "K4": 4096, "K4b": 4096, "K5": 512, "K5b": 1024}
+
+
+def via_entries(progs, rng, p=0.3):
+    """some handles come from DirEntry::to_file()/to_dir() of the listed entry instead of open_file()/open_dir() (same meaning)"""
+    for pr in progs:
+        for o in pr["ops"]:
+            if o.get("op") in ("open_file", "open_dir") and "/" not in o.get("path", "/") and rng.random() < p:
+                o["via"] = "entry"
+    return progs
 
 
 def fam_io(prop, kset, n_prog, n_ops, salt=0, **kw):
@@ -53,7 +62,7 @@ def fam_io(prop, kset, n_prog, n_ops, salt=0, **kw):
         cfg = gen.K(kname)
         for i in range(n_prog):
             progs.append(gen.io_program(rng, "io-%s-%d" % (kname, i), cfg, CS[kname], n_ops, n_files=rng.choice([1, 2, 3]), **kw))
-    return progs
+    return via_entries(progs, rng)
 
 
 def fam_fill(prop, kset, n_prog, salt=0, **kw):
@@ -64,7 +73,7 @@ def fam_fill(prop, kset, n_prog, salt=0, **kw):
         for i in range(n_prog):
             progs.append(gen.fill_program(rng, "fill-%s-%d" % (kname, i), cfg, CS[kname], rounds=rng.choice([2, 3]),
                                           probe_stats=(i % 2 == 0), **kw))
-    return progs
+    return via_entries(progs, rng)
 
 
 def regress_programs():
